@@ -1,8 +1,9 @@
 #!/bin/bash
-# usage: round2.sh Cxx   -- renumbers /tmp/mutout_Cxx/{1,2,3} to {4,5,6}, confirms and evaluates them
-id=$1
-for n in 3 2 1; do [ -d /tmp/mutout_$id/$n ] && mv /tmp/mutout_$id/$n /tmp/mutout_$id/$((n+3)); done
-for n in 4 5 6; do
+# usage: round2.sh Cxx [offset]   -- renumbers /tmp/mutout_Cxx/{1,2,3} to {1+offset,...} (default offset 3),
+# confirms and evaluates them
+id=$1; off=${2:-3}
+for n in 3 2 1; do [ -d /tmp/mutout_$id/$n ] && mv /tmp/mutout_$id/$n /tmp/mutout_$id/$((n+off)); done
+for n in $((1+off)) $((2+off)) $((3+off)); do
   [ -d /tmp/mutout_$id/$n ] || continue
   python3 /verif/tools/confirm_mutation.py $id $n "" 2>&1 | tail -1
   [ -d /verif/seeded/$id-$n ] && /verif/tools/eval_seeded.sh $id-$n quick | cut -c1-260
